@@ -121,7 +121,22 @@ def pOp : P Op := do
     let count ← pInt
     pure (.replace d src old new count)
   | 19 => do let src ← pNat; let spec ← pOptStr; let o ← pBool; let rs ← pBool; let re ← pBool; pure (.render src spec o rs re)
-  | _ => do let src ← pNat; let a ← pSArg; let st ← pOptInt; let en ← pOptInt; let rev ← pBool; pure (.find src a st en rev)
+  | 20 => do let src ← pNat; let a ← pSArg; let st ← pOptInt; let en ← pOptInt; let rev ← pBool; pure (.find src a st en rev)
+  | 21 => do let d ← pNat; let src ← pNat; let w ← pInt; pure (.zfill d src w)
+  | 22 => do let d ← pNat; let src ← pNat; let a ← pOptInt; let b ← pOptInt; pure (.clip d src a b)
+  | 23 => do let d ← pNat; let n ← pNat; let vs ← pMany n pNat; pure (.join d vs)
+  | 24 => do
+    let v ← pNat; let a ← pSArg; let count ← pInt; let n ← pNat
+    let spans ← pMany n (do let s ← pInt; let e ← pInt; pure (s, e))
+    pure (.fmatch v a spans count)
+  | 25 => do
+    let v ← pNat; let a ← pOptSArg; let count ← pInt; let n ← pNat
+    let spans ← pMany n (do let s ← pInt; let e ← pInt; pure (s, e))
+    pure (.unfmatch v a spans count)
+  | 26 => do let d ← pNat; let src ← pNat; let sep ← pOptStr; let m ← pInt; let r ← pBool; let j ← pNat; pure (.splitPiece d src sep m r j)
+  | 27 => do let d ← pNat; let src ← pNat; let k ← pBool; let j ← pNat; pure (.linePiece d src k j)
+  | 28 => do let d ← pNat; let src ← pNat; let sep ← pStr; let r ← pBool; let j ← pNat; pure (.partPiece d src sep r j)
+  | _ => do let d ← pNat; let src ← pNat; let k ← pInt; pure (.expandtabs d src k)
 
 /-! ### printing -/
 
